@@ -69,7 +69,6 @@ COMMON_ASSUME = [
 
 PROPS = {
  "C01": dict(tie=tie("XMSS_HASH", "XMSS_WOTS", "XMSS_BDS", "XMSS_KEY", "XMSS_VERIFY"),
-             thorough_modules=["C01Thorough"],
              timeout={"quick": 1500, "thorough": 7200},
              assumptions=COMMON_ASSUME + ["heights above those listed in coverage.explanation are covered by the general lemmas plus label-mode runs only (C01_partial)"]),
  "C02": dict(tie=tie("XMSS_KEY", extra=["xmss_XMSSFastGenKeyPair"]), assumptions=COMMON_ASSUME),
